@@ -1,12 +1,16 @@
 #!/venv/bin/python
 """prints the markdown table of confirmed seeded changes (seeded/<id>/meta.json) for DESIGN.md section 11.6"""
 import json, os, re
-rows = []
+rows = []; rrows = []
 for d in sorted(os.listdir('/verif/seeded')):
     p = os.path.join('/verif/seeded', d, 'meta.json')
     if not os.path.exists(p): continue
     m = json.load(open(p))
     c = m.get('check', {})
+    if re.match(r'^C\d+_r\d+$', d):
+        what = (m.get('summary') or m.get('description') or m.get('what') or '')[:230].replace('|', '/').replace('\n', ' ')
+        rrows.append('| %s | %s | %s |' % (d, what, 'exit 0 (no alarm)' if c.get('exit') == 0 else '**exit %s**' % c.get('exit')))
+        continue
     fv = c.get('first_violation', '')
     mm = re.search(r'violation: (.+?) / (\S+) input=', fv)
     clause = ('oracle clause `%s` (%s)' % (mm.group(2), mm.group(1).split('.')[-1])) if mm else ''
@@ -17,3 +21,6 @@ for d in sorted(os.listdir('/verif/seeded')):
     rows.append('| %s | %s | %s | %s |' % (d, (m.get('summary') or '')[:150].replace('|', '/'), (m.get('needs') or '')[:110].replace('|', '/'), by[:230]))
 print('| id | change | needs | caught by |\n|---|---|---|---|')
 print('\n'.join(rows))
+print()
+print('| id | behaviour-preserving rewrite | check on the rewritten tree |\n|---|---|---|')
+print('\n'.join(rrows))
